@@ -169,6 +169,81 @@ class Setup:
                                 self.mon.c["conflicting_offers_to_the_pool"] = self.mon.c.get("conflicting_offers_to_the_pool", 0) + 1
         return added
 
+    def reorganise_away(self):
+        """a longer competing branch from a peer replaces the block this node has just mined, while the pool holds
+        transactions that only make sense on the abandoned branch (they spend what the abandoned block created, or what the
+        new branch spends low down) next to one that is valid on both; returns what a replay needs, or None"""
+        world, rng, node, c = self.world, self.rng, self.node, self.mon.c
+        cm = node.lp.chain_manager
+        hid = cm.coinstate.current_chain_hash
+        if hid not in world.chain.blocks or not self.peers:
+            return None
+        H = world.chain.blocks[hid]
+        if H.prev not in world.chain.blocks:
+            return None
+        P = world.chain.blocks[H.prev]
+        led_P = world.ledger(H.prev)
+        used = set()
+        for t in cm.get_state()[1]:
+            used.update((i.output_reference.hash, i.output_reference.index) for i in t.inputs)
+        own = [x for x in world.owned(hid) if x[0] not in used]
+        a_only = [x for x in own if x[0] not in led_P]
+        common = [x for x in own if x[0] in led_P]
+        rng.shuffle(a_only)
+        rng.shuffle(common)
+        if not common and not a_only:
+            return None
+        chain_before = gen.blocks_hex(world, world.chain.order[1:])
+        offered = []
+        if a_only:
+            offered.append(world.make_rtx(hid, rng, spend=a_only[:rng.choice([1, 1, 2])], fee=rng.choice([0, 5, 1000])))
+        if common:
+            offered.append(world.make_rtx(hid, rng, spend=common[:1], fee=rng.choice([0, 5, 1000])))
+        if len(common) > 1:
+            offered.append(world.make_rtx(hid, rng, spend=common[1:2], fee=rng.choice([0, 5, 1000])))
+        for t in offered:
+            if t is not None:
+                try:
+                    cm.add_transaction_to_pool(bridge.rtx_to_real(t))
+                except Exception:
+                    pass
+        pool_before = [bridge.real_to_rtx(t).enc().hex() for t in cm.get_state()[1]]
+        # the competing branch: its first block spends, on its own, what one pooled transaction spends
+        self.net.clock.t = max(self.net.clock.t, H.ts)
+        txs = []
+        if common:
+            tB = world.make_rtx(H.prev, rng, spend=common[:1], fee=rng.choice([0, 9]))
+            if tB is not None:
+                txs = [tB]
+        branch, parent, ts = [], H.prev, P.ts
+        peer = rng.choice(self.peers)
+        for k in range(rng.choice([2, 2, 3])):
+            ts += 1
+            try:
+                rb, real = world.assemble(parent, txs if k == 0 else [], ts, world.keys[k % len(world.keys)][1], route="ref")
+            except Exception:
+                return None
+            self.net.clock.t = max(self.net.clock.t, rb.ts - 29)
+            peer.push(self.wire.block(real))
+            self.net.settle(node)
+            if rb.id() not in cm.coinstate.block_by_hash:
+                return None
+            world.cs = world.cs.add_block_no_validation(real)
+            world.accept(rb, real, cs=world.cs)
+            branch.append(rb.enc().hex())
+            parent = rb.id()
+        for r in self.peers:
+            r.take_received()
+        self.peers = [p for p in self.peers if not p.peer.closed] or self.peers
+        if cm.coinstate.current_chain_hash != parent:
+            return None
+        self.mw.send_queues[0].items.clear()
+        c["own_block_reorganised_away_with_pool"] = c.get("own_block_reorganised_away_with_pool", 0) + 1
+        if a_only:
+            c["pooled_spend_of_abandoned_output"] = c.get("pooled_spend_of_abandoned_output", 0) + 1
+        return {"chain_before": chain_before, "head_before": hid.hex(), "pool_before": pool_before, "branch": branch,
+                "clock": self.net.clock.t}
+
     def mine_one(self, w_base):
         """drives the two handlers until a candidate's id is below target, judges it, lets the handler adopt it"""
         import skepticoin.consensus as cons
@@ -473,7 +548,10 @@ def run_setup(mon, rng, idx, nfound, period=None):
     world = st.world
     reorg = len(world.chain.tips()) > 1
     prev_ok = False
-    for j in range(nfound):
+    after = None
+    j = -1
+    while j + 1 < nfound:
+        j += 1
         head = world.chain.blocks[st.node.lp.chain_manager.coinstate.current_chain_hash]
         # [domain] clocks from head.ts - 29 upwards (see DESIGN: at head.ts - 30 no valid child exists)
         st.net.clock.t = head.ts + rng.choice([-29, -10, -1, 0, 1, 2, 60, 120, 100000])
@@ -483,7 +561,21 @@ def run_setup(mon, rng, idx, nfound, period=None):
             if (head.height + 1) % period == 0:
                 mon.c["found_at_retarget_boundary_attempts"] = mon.c.get("found_at_retarget_boundary_attempts", 0) + 1
         st.fill_pool(rng.choice([0, 0, 1, 3, 8, 30]))
-        ok = st.mine_one({"setup": idx, "round": j})
+        w_base = {"setup": idx, "round": j}
+        if after:
+            w_base["after_reorganisation"] = after
+        ok = st.mine_one(w_base)
+        if ok and after:
+            mon.c["found_after_own_block_was_reorganised_away"] = mon.c.get("found_after_own_block_was_reorganised_away", 0) + 1
+        after = None
+        if ok and not period and rng.random() < 0.4:
+            # the block just mined loses against a longer branch from a peer (the pool non-empty at that moment); the
+            # next candidate is built on the new head from what is left of the pool
+            after = st.reorganise_away()
+            if after and j + 1 >= nfound and nfound < 6:
+                nfound += 1
+            if after:
+                reorg = True
         if ok and reorg:
             mon.c["found_on_reorganised_head"] += 1
         if ok and prev_ok:
@@ -499,6 +591,26 @@ def replay(mon, w):
     the CURRENT tree is driven in it; the candidate it finds now is judged"""
     rng = random.Random(0)
     world = gen.World(rng, nkeys=8)
+    if "after_reorganisation" in w:
+        a = w["after_reorganisation"]
+        for hx in a["chain_before"]:
+            rb = ref.parse_block(bytes.fromhex(hx))
+            world.accept(rb, bridge.rblock_to_real(rb), validate=False)
+        world.cs = world.state_at(bytes.fromhex(a["head_before"]))
+        st = Setup(mon, rng, 0, world=world)
+        for hx in a["pool_before"]:
+            st.node.lp.chain_manager.add_transaction_to_pool(bridge.rtx_to_real(ref.parse_tx(bytes.fromhex(hx))))
+        st.net.clock.t = a["clock"]
+        for hx in a["branch"]:
+            rb = ref.parse_block(bytes.fromhex(hx))
+            real = bridge.rblock_to_real(rb)
+            st.peers[0].push(st.wire.block(real))
+            st.net.settle(st.node)
+            world.cs = world.cs.add_block_no_validation(real)
+            world.accept(rb, real, cs=world.cs)
+        st.mine_one({"setup": "replay", "round": 0, "after_reorganisation": a})
+        st.close()
+        return
     for hx in w["chain"]:
         rb = ref.parse_block(bytes.fromhex(hx))
         world.accept(rb, bridge.rblock_to_real(rb), validate=False)
@@ -550,6 +662,8 @@ def finalize(m, tier):
                    ("found_while_a_connection_is_half_dropped", c.get("found_while_a_connection_is_half_dropped", 0), 20),
                    ("conflicting_offers_to_the_pool", c.get("conflicting_offers_to_the_pool", 0), 40),
                    ("found_after_the_head_moved", c.get("found_after_the_head_moved", 0), 10),
-                   ("first_candidates_after_head_change_found", c.get("first_candidates_after_head_change_found", 0), 20)],
+                   ("first_candidates_after_head_change_found", c.get("first_candidates_after_head_change_found", 0), 20),
+                   ("found_after_own_block_was_reorganised_away", c.get("found_after_own_block_was_reorganised_away", 0), 15),
+                   ("pooled_spend_of_abandoned_output", c.get("pooled_spend_of_abandoned_output", 0), 8)],
         "extra": {},
     }
